@@ -79,6 +79,15 @@ func withTE(fn func() (T, error)) error {
 	return err
 }
 
+func firstErr(errs ...error) error {
+	for _, e := range errs {
+		if e != nil {
+			return e
+		}
+	}
+	return nil
+}
+
 func withAny(fn func() (int, string, error)) (any, error) {
 	a, _, err := fn()
 	return a, err
@@ -210,6 +219,17 @@ func (g *c14Gen) ret(shape string) string {
 			}
 			return "return with2(func() (int, error) { return 1, E{Code: 8} })"
 		case 6:
+			if rapid.Bool().Draw(g.t, "variadic") {
+				// errors handed to a variadic ...error parameter, spelled out or spread from a slice built before the call
+				g.feats["variadic-error-arguments"] = true
+				c, ok := g.call("err")
+				c = or(c, ok, "E{Code: 4}")
+				if rapid.Bool().Draw(g.t, "spread") {
+					g.feats["spread-call"] = true
+					return "errs := []error{E{Code: 6}}\nerrs = append(errs, " + c + ")\nreturn firstErr(errs...)"
+				}
+				return "return firstErr(E{Code: 6}, " + c + ")"
+			}
 			g.feats["closure-argument-fewer-results"] = true
 			return "return with0(func() {})"
 		case 7:
